@@ -66,7 +66,7 @@ type codec struct {
 	n       int
 	want    []string                         // canonical text of object i, computed up front
 	marshal func(i int) ([]byte, error)      // the result as returned, uncopied
-	back    func(b []byte) (string, error)   // decode b, print the decoded object canonically
+	dec     func(b []byte) (func() string, error) // decode b; the returned function prints the decoded value (kept by the caller) canonically
 	str     func(i int) string               // String()-producing call (may be nil)
 	sample  func(i int) any
 }
@@ -108,12 +108,12 @@ func newCodecs(rng *rand.Rand, extra int) ([]*codec, error) {
 	for i, u := range urls {
 		urlWant[i] = u.String()
 	}
-	urlBack := func(b []byte) (string, error) {
+	urlDec := func(b []byte) (func() string, error) {
 		v := &urlutil.URL{}
 		if err := v.UnmarshalText(b); err != nil {
-			return "", err
+			return nil, err
 		}
-		return v.String(), nil
+		return v.String, nil
 	}
 	durs := []timeutil.Duration{timeutil.Duration(-(2562047*time.Hour + 47*time.Minute + 16*time.Second + 854775807)), timeutil.Duration(90 * time.Minute),
 		timeutil.Duration(time.Second), 0, timeutil.Duration(1500 * time.Microsecond), timeutil.Duration(26*time.Hour + 3*time.Second + 7)}
@@ -140,16 +140,16 @@ func newCodecs(rng *rand.Rand, extra int) ([]*codec, error) {
 	}
 	return []*codec{
 		{name: "urlutil.URL.MarshalText", n: len(urls), want: urlWant,
-			marshal: func(i int) ([]byte, error) { return urls[i].MarshalText() }, back: urlBack,
+			marshal: func(i int) ([]byte, error) { return urls[i].MarshalText() }, dec: urlDec,
 			str: func(i int) string { return urls[i].String() }, sample: func(i int) any { return urlWant[i] }},
 		{name: "json.Marshal(*urlutil.URL)", n: len(urls), want: urlWant,
 			marshal: func(i int) ([]byte, error) { return json.Marshal(urls[i]) },
-			back: func(b []byte) (string, error) {
+			dec: func(b []byte) (func() string, error) {
 				v := &urlutil.URL{}
 				if err := json.Unmarshal(b, v); err != nil {
-					return "", err
+					return nil, err
 				}
-				return v.String(), nil
+				return v.String, nil
 			}, sample: func(i int) any { return urlWant[i] }},
 		{name: "json.Marshal(struct of two *urlutil.URL)", n: len(urls), want: func() []string {
 			w := make([]string, len(urls))
@@ -159,51 +159,148 @@ func newCodecs(rng *rand.Rand, extra int) ([]*codec, error) {
 			return w
 		}(),
 			marshal: func(i int) ([]byte, error) { return json.Marshal(urlPair{A: urls[i], B: urls[(i+1)%len(urls)]}) },
-			back: func(b []byte) (string, error) {
-				var p urlPair
-				if err := json.Unmarshal(b, &p); err != nil {
-					return "", err
+			dec: func(b []byte) (func() string, error) {
+				p := &urlPair{}
+				if err := json.Unmarshal(b, p); err != nil {
+					return nil, err
 				}
 				if p.A == nil || p.B == nil {
-					return "", fmt.Errorf("decoded a nil URL")
+					return nil, fmt.Errorf("decoded a nil URL")
 				}
-				return p.A.String() + " " + p.B.String(), nil
+				return func() string { return p.A.String() + " " + p.B.String() }, nil
 			}, sample: func(i int) any { return urlWant[i] }},
 		{name: "timeutil.Duration.MarshalText", n: len(durs), want: durWant,
 			marshal: func(i int) ([]byte, error) { return durs[i].MarshalText() },
-			back: func(b []byte) (string, error) {
-				var d timeutil.Duration
+			dec: func(b []byte) (func() string, error) {
+				d := new(timeutil.Duration)
 				if err := d.UnmarshalText(b); err != nil {
-					return "", err
+					return nil, err
 				}
-				return cutRef(time.Duration(d).String()), nil
+				return func() string { return cutRef(time.Duration(*d).String()) }, nil
 			}, str: func(i int) string { return durs[i].String() }, sample: func(i int) any { return durWant[i] }},
 		{name: "netutil.HostPort.MarshalText", n: len(hps), want: hpWant,
 			marshal: func(i int) ([]byte, error) { return hps[i].MarshalText() },
-			back: func(b []byte) (string, error) {
-				var hp netutil.HostPort
+			dec: func(b []byte) (func() string, error) {
+				hp := &netutil.HostPort{}
 				if err := hp.UnmarshalText(b); err != nil {
-					return "", err
+					return nil, err
 				}
-				return fmt.Sprintf("%+v", hp), nil
+				return func() string { return fmt.Sprintf("%+v", *hp) }, nil
 			}, str: func(i int) string { return hps[i].String() }, sample: func(i int) any { return hpWant[i] }},
 		{name: "netutil.Prefix.MarshalText", n: len(pfxs), want: pfxTexts,
 			marshal: func(i int) ([]byte, error) { return pfxs[i].MarshalText() },
-			back: func(b []byte) (string, error) {
-				var p netutil.Prefix
+			dec: func(b []byte) (func() string, error) {
+				p := &netutil.Prefix{}
 				if err := p.UnmarshalText(b); err != nil {
-					return "", err
+					return nil, err
 				}
-				return p.String(), nil
+				return func() string { return p.String() }, nil
 			}, str: func(i int) string { return pfxs[i].String() }, sample: func(i int) any { return pfxTexts[i] }},
 	}, nil
 }
 
+// back decodes b and prints the decoded object at once.
+func (c *codec) back(b []byte) (string, error) {
+	pr, err := c.dec(b)
+	if err != nil {
+		return "", err
+	}
+	return pr(), nil
+}
+
+// decodedVal is a value decoded from the caller's reused input buffer and kept.
+type decodedVal struct {
+	print func() string
+	snap  string // what it printed as right after the call
+	obj   int
+}
+
+func inputKey(encoder string) string {
+	return strings.Replace(encoder, "Marshal", "Unmarshal", 1) + ": a decoded value changes when the caller reuses its input buffer (the value is a view of the input, not a value)"
+}
+
 // session is one caller retaining results of one codec.
 type session struct {
-	c    *codec
-	held []retained
-	strs []retained // String() results: the string is kept, snap is a clone
+	c       *codec
+	held    []retained
+	strs    []retained // String() results: the string is kept, snap is a clone
+	inbuf   []byte     // ONE input buffer, reused for every decode
+	decoded []decodedVal
+	nscrib  int
+}
+
+// decode copies the text of object i into the reused input buffer, decodes
+// from it and keeps the decoded value.
+func (s *session) decode(res *vh.Result, i int) (ok bool) {
+	var text []byte
+	var err error
+	if pv, panicked := vh.Try(func() { text, err = s.c.marshal(i) }); panicked || err != nil {
+		res.Mismatch(fmt.Sprintf("%s of %v", s.c.name, s.c.sample(i)), fmt.Sprintf("fails: %v %v", pv, err), nil)
+		return false
+	}
+	if s.inbuf == nil {
+		s.inbuf = make([]byte, 4096)
+	}
+	if len(text) > len(s.inbuf) {
+		return false
+	}
+	n := copy(s.inbuf, text)
+	guard := string(s.inbuf)
+	var pr func() string
+	if pv, panicked := vh.Try(func() { pr, err = s.c.dec(s.inbuf[:n]) }); panicked || err != nil {
+		res.Mismatch(fmt.Sprintf("%s of %v does not round-trip", s.c.name, s.c.sample(i)), fmt.Sprintf("decoding %+q fails: %v %v", text, pv, err), nil)
+		return false
+	}
+	if string(s.inbuf) != guard {
+		res.Mismatch(strings.Replace(s.c.name, "Marshal", "Unmarshal", 1)+": decoding writes to its input",
+			fmt.Sprintf("the caller's buffer held %+q before the call and %+q after it", guard[:n], string(s.inbuf[:n])), nil)
+	}
+	var now string
+	vh.Try(func() { now = pr() })
+	if now != s.c.want[i] {
+		res.Mismatch(fmt.Sprintf("%s of %v does not round-trip", s.c.name, s.c.sample(i)),
+			fmt.Sprintf("decoded from %+q it prints %+q, want %+q", text, now, s.c.want[i]), nil)
+	}
+	s.decoded = append(s.decoded, decodedVal{print: pr, snap: now, obj: i})
+	return true
+}
+
+// scribble is the caller reusing its buffer: zeros, 0xFF or another text.
+func (s *session) scribble() {
+	if s.inbuf == nil {
+		return
+	}
+	s.nscrib++
+	switch s.nscrib % 3 {
+	case 0:
+		clear(s.inbuf)
+	case 1:
+		for k := range s.inbuf {
+			s.inbuf[k] = 0xFF
+		}
+	default:
+		junk := "zz://another:text@completely.different.example:1/x?y=z#w "
+		for k := range s.inbuf {
+			s.inbuf[k] = junk[k%len(junk)]
+		}
+	}
+}
+
+// checkDecoded re-prints every decoded value.
+func (s *session) checkDecoded(res *vh.Result) (now []string) {
+	for k, d := range s.decoded {
+		var p string
+		if pv, panicked := vh.Try(func() { p = d.print() }); panicked {
+			p = fmt.Sprintf("panic: %v", pv)
+		}
+		now = append(now, asc14(p))
+		if p != d.snap {
+			res.Mismatch(inputKey(s.c.name),
+				fmt.Sprintf("value #%d (of %v) printed %+q right after decoding and prints %+q after the caller overwrote its input buffer", k+1, s.c.sample(d.obj), d.snap, p),
+				map[string]any{"decoder": s.c.name, "decoded": d.snap, "now": p})
+		}
+	}
+	return now
 }
 
 func (s *session) marshal(res *vh.Result, i int) (ok bool) {
@@ -278,8 +375,9 @@ func replayValues(args []string) error {
 		return err
 	}
 	type vec struct {
-		Ops  []valOp `json:"ops"`
-		Held []int   `json:"held"`
+		Ops     []valOp `json:"ops"`
+		Held    []int   `json:"held"`
+		Decoded []int   `json:"decoded"`
 	}
 	n, evals := 0, 0
 	dd := vh.NewDedup()
@@ -309,6 +407,14 @@ func replayValues(args []string) error {
 							continue // an earlier marshal failed (already reported)
 						}
 						s.roundTrip(res, op.N-1)
+					case "decode":
+						if op.N < 1 || op.N > 3 {
+							return fmt.Errorf("object %d out of range", op.N)
+						}
+						s.decode(res, triple[op.N-1])
+					case "scribble":
+						s.scribble()
+						s.checkDecoded(res)
 					default:
 						return fmt.Errorf("unknown op %q", op.Op)
 					}
@@ -323,6 +429,16 @@ func replayValues(args []string) error {
 				s.check(res)
 				for k := range s.held {
 					s.roundTrip(res, k)
+				}
+				// the caller reuses its input buffer once more: all decoded values must stay what they were
+				s.scribble()
+				s.checkDecoded(res)
+				if len(s.decoded) == len(v.Decoded) {
+					for k := range s.decoded {
+						if s.decoded[k].obj != triple[v.Decoded[k]-1] {
+							return fmt.Errorf("replay of %s lost track of the decoded values", raw)
+						}
+					}
 				}
 			}
 		}
@@ -348,6 +464,7 @@ type valEv struct {
 	Obj  int      `json:"obj"`
 	Text string   `json:"text"`
 	Held []string `json:"held"`
+	Dec  []string `json:"decoded"`
 }
 
 func recordValues(args []string) error {
@@ -373,29 +490,38 @@ func recordValues(args []string) error {
 	for q := 0; q < nSeq; q++ {
 		c := codecs[q%len(codecs)]
 		s := &session{c: c}
-		tr.Emit(valEv{Op: "reset", Who: c.name, Held: []string{}})
+		tr.Emit(valEv{Op: "reset", Who: c.name, Held: []string{}, Dec: []string{}})
 		steps := 5 + rng.IntN(40)
 		for i := 0; i < steps; i++ {
 			calls++
-			switch r := rng.IntN(10); {
+			switch r := rng.IntN(14); {
+			case r >= 10: // decode from the ONE reused input buffer, which is overwritten right after the call
+				obj := rng.IntN(c.n)
+				if s.decode(res, obj) {
+					tr.Emit(valEv{Op: "decode", Who: c.name, Obj: obj, Text: asc14(s.decoded[len(s.decoded)-1].snap), Held: []string{}, Dec: []string{}})
+					if rng.IntN(4) > 0 {
+						s.scribble()
+					}
+				}
 			case r < 6 || len(s.held) == 0:
 				obj := rng.IntN(c.n)
 				if rng.IntN(4) == 0 && len(s.held) > 0 {
 					obj = s.held[rng.IntN(len(s.held))].obj // the same object again
 				}
 				if s.marshal(res, obj) {
-					tr.Emit(valEv{Op: "marshal", Who: c.name, Obj: obj, Text: asc14(s.held[len(s.held)-1].snap), Held: []string{}})
+					tr.Emit(valEv{Op: "marshal", Who: c.name, Obj: obj, Text: asc14(s.held[len(s.held)-1].snap), Held: []string{}, Dec: []string{}})
 				}
 			case r < 9:
 				s.roundTrip(res, rng.IntN(len(s.held)))
 			default:
-				tr.Emit(valEv{Op: "check", Who: c.name, Held: append([]string{}, s.check(res)...)})
+				tr.Emit(valEv{Op: "check", Who: c.name, Held: append([]string{}, s.check(res)...), Dec: append([]string{}, s.checkDecoded(res)...)})
 			}
 		}
 		for k := range s.held {
 			s.roundTrip(res, k)
 		}
-		tr.Emit(valEv{Op: "check", Who: c.name, Held: append([]string{}, s.check(res)...)})
+		s.scribble()
+		tr.Emit(valEv{Op: "check", Who: c.name, Held: append([]string{}, s.check(res)...), Dec: append([]string{}, s.checkDecoded(res)...)})
 		if q == 3 {
 			res.Sample(map[string]any{"encoder": c.name, "retained": len(s.held)})
 		}
@@ -503,13 +629,13 @@ func stress(args []string) error {
 			retainedN += len(s.held)
 			// trace: the first results of this goroutine and what they read as now
 			lim := min(len(s.held), 60)
-			tr.Emit(valEv{Op: "reset", Who: fmt.Sprintf("g%d %s", g, s.c.name), Held: []string{}})
+			tr.Emit(valEv{Op: "reset", Who: fmt.Sprintf("g%d %s", g, s.c.name), Held: []string{}, Dec: []string{}})
 			now := []string{}
 			for k := 0; k < lim; k++ {
-				tr.Emit(valEv{Op: "marshal", Who: s.c.name, Obj: s.held[k].obj, Text: asc14(s.held[k].snap), Held: []string{}})
+				tr.Emit(valEv{Op: "marshal", Who: s.c.name, Obj: s.held[k].obj, Text: asc14(s.held[k].snap), Held: []string{}, Dec: []string{}})
 				now = append(now, asc14(string(s.held[k].b)))
 			}
-			tr.Emit(valEv{Op: "check", Who: s.c.name, Held: now})
+			tr.Emit(valEv{Op: "check", Who: s.c.name, Held: now, Dec: []string{}})
 			s.check(res)
 			for k := range s.held {
 				r := s.held[k]
